@@ -14,6 +14,8 @@
 //!   store    AsyncMemoryBlobStore / AsyncFileStore / AsyncCompressedBlobStore under concurrent
 //!            callers; the log is a linearisation (each id is published only after its put is logged,
 //!            removes only by the owner of an unpublished id)
+//!   storeq   the same stores shared by 2 / 4 / 8 tasks (bursts of put, put_batch of 1 / 2 / 17 / 200, get,
+//!            get_batch, remove, contains, len), 100 rounds, judged at quiescence (AsQuiesce)
 //!   yield    fibers driving FiberYield / FiberYieldHandle / YieldPoint / GlobalYield with seeded yield
 //!            patterns and budgets; CooperativeUtils / YieldingIterator helpers
 //!   aio      FiberFile read / read_at / seek / read_to_end / write, FiberAio copy / write_all /
@@ -768,6 +770,200 @@ fn mode_store(a: &Args) {
     write_summary(&a.out, &json!({"mode":"store","events":tr.total_events,"runs":tr.runs,"records_put":puts}));
 }
 
+// ---------------------------------------------------------------- async blob stores: stress, judged at quiescence
+
+#[derive(Default)]
+struct TaskRec {
+    puts: Vec<(u32, Value)>, // (id, digest of the bytes this task supplied)
+    removed: Vec<u32>,
+    reads: Vec<Value>,
+    calls: usize,
+    refused: usize,
+}
+
+/// payloads are unique over the whole round: task, sequence number, then seeded bytes
+fn payload(t: usize, seq: &mut u32, r: &mut Rng) -> Vec<u8> {
+    *seq += 1;
+    let mut v = vec![t as u8, (*seq & 0xff) as u8, (*seq >> 8) as u8, 0xA5];
+    let extra = *r.pick(&[0usize, 3, 40]);
+    v.extend(r.bytes(extra));
+    v
+}
+
+async fn stress_task(store: Arc<dyn AsyncBlobStore>, t: usize, mut r: Rng, ops: usize, batch_sizes: &'static [usize], start: Arc<tokio::sync::Barrier>) -> TaskRec {
+    let mut rec = TaskRec::default();
+    let mut seq = 0u32;
+    let mut mine: Vec<(u32, Value)> = vec![]; // ids I put and did not remove
+    start.wait().await;
+    for _ in 0..ops {
+        rec.calls += 1;
+        match r.below(100) {
+            0..=39 => {
+                // a burst of single puts
+                for _ in 0..*r.pick(&[1usize, 5, 30]) {
+                    let data = payload(t, &mut seq, &mut r);
+                    match store.put(&data).await {
+                        Ok(id) => {
+                            rec.puts.push((id, digest(&data)));
+                            mine.push((id, digest(&data)));
+                        }
+                        Err(_) => rec.refused += 1,
+                    }
+                }
+            }
+            40..=69 => {
+                let n = *r.pick(batch_sizes);
+                let ds: Vec<Vec<u8>> = (0..n).map(|_| payload(t, &mut seq, &mut r)).collect();
+                let refs: Vec<&[u8]> = ds.iter().map(|d| d.as_slice()).collect();
+                match store.put_batch(refs).await {
+                    Ok(ids) => {
+                        if ids.len() != ds.len() {
+                            // one result per input: recorded as a read that cannot be right
+                            rec.reads.push(json!({"ok":false,"d":digest(&[]),"want":digest(&[]),"what":"put_batch returned another number of ids","n":ds.len(),"got":ids.len()}));
+                        }
+                        for (id, d) in ids.iter().zip(ds.iter()) {
+                            rec.puts.push((*id, digest(d)));
+                            mine.push((*id, digest(d)));
+                        }
+                    }
+                    Err(_) => rec.refused += 1,
+                }
+            }
+            70..=79 if !mine.is_empty() => {
+                let (id, want) = mine[r.below(mine.len() as u64) as usize].clone();
+                let mut e = get_json(&store.get(id).await);
+                e["want"] = want;
+                e["id"] = json!(id);
+                rec.reads.push(e);
+            }
+            80..=85 if !mine.is_empty() => {
+                let k = (r.range(1, 6) as usize).min(mine.len());
+                let from = r.below((mine.len() - k + 1) as u64) as usize;
+                let part: Vec<(u32, Value)> = mine[from..from + k].to_vec();
+                match store.get_batch(part.iter().map(|p| p.0).collect()).await {
+                    Ok(v) if v.len() == part.len() => {
+                        for (b, p) in v.iter().zip(part.iter()) {
+                            rec.reads.push(json!({"ok":true,"d":digest(b),"want":p.1,"id":p.0,"via":"get_batch"}));
+                        }
+                    }
+                    _ => rec.reads.push(json!({"ok":false,"d":digest(&[]),"want":part[0].1,"id":part[0].0,"via":"get_batch"})),
+                }
+            }
+            86..=93 if !mine.is_empty() => {
+                let i = r.below(mine.len() as u64) as usize;
+                let (id, _) = mine.swap_remove(i);
+                if store.remove(id).await.is_ok() {
+                    rec.removed.push(id);
+                } else {
+                    // a refused remove of an id I own: it must still be there - judged at quiescence
+                    rec.refused += 1;
+                }
+            }
+            94..=96 if !mine.is_empty() => {
+                let (id, want) = mine[r.below(mine.len() as u64) as usize].clone();
+                let c = store.contains(id).await;
+                rec.reads.push(json!({"ok":c,"d":want.clone(),"want":want,"id":id,"via":"contains"}));
+            }
+            _ => {
+                let _ = store.len().await;
+                tokio::task::yield_now().await;
+            }
+        }
+    }
+    rec
+}
+
+fn mode_storeq(a: &Args) {
+    let mut tr = Tracer::new(&a.out, "paq");
+    tr.max_events = 0;
+    let rng0 = Rng::new(a.seed).derive("storeq");
+    let rt = rt();
+    let rounds = a.get_u64("n", if a.thorough() { 400 } else { 100 }) as usize;
+    let (mut calls, mut records, mut big_batches) = (0usize, 0usize, 0usize);
+    static BIG: [usize; 4] = [1, 2, 17, 200];
+    static SMALL: [usize; 3] = [1, 2, 17];
+    for (name, share) in [("async_mem", 6usize), ("async_zstd_mem", 2), ("async_file", 1), ("async_zstd_file", 1)] {
+        if !a.wants(name) {
+            continue;
+        }
+        let n_rounds = (rounds * share / 10).max(4);
+        for round in 0..n_rounds {
+            let rng = rng0.derive(&format!("{name}/{round}"));
+            let k = [2usize, 4, 8][round % 3];
+            let on_disk = name.ends_with("file");
+            let dir = a.out.join(format!("aq-{name}-{round}"));
+            let store: Arc<dyn AsyncBlobStore> = match name {
+                "async_mem" if round % 2 == 1 => Arc::new(AsyncMemoryBlobStore::with_capacity(64)),
+                "async_mem" => Arc::new(AsyncMemoryBlobStore::new()),
+                "async_zstd_mem" => Arc::new(AsyncCompressedBlobStore::new(AsyncMemoryBlobStore::new(), 1)),
+                _ => {
+                    let inner = match rt.block_on(AsyncFileStore::new(&dir)) {
+                        Ok(s) => s,
+                        Err(_) => continue,
+                    };
+                    if name == "async_file" {
+                        Arc::new(inner)
+                    } else {
+                        Arc::new(AsyncCompressedBlobStore::new(inner, 1))
+                    }
+                }
+            };
+            if tr.runs % 6 == 0 {
+                tr.max_events = 0;
+            }
+            tr.reset("pipeline", &format!("{name}@stress"), json!({"fam":"as_stress","variant":name,"tasks":k,"round":round}));
+            tr.max_events = 1_000_000;
+            let ops = if on_disk { 6 } else { 10 };
+            let sizes: &'static [usize] = if on_disk { &SMALL } else { &BIG };
+            let ev = rt.block_on(async {
+                let start = Arc::new(tokio::sync::Barrier::new(k));
+                let hs: Vec<_> = (0..k).map(|t| tokio::spawn(stress_task(store.clone(), t, rng.derive(&format!("t{t}")), ops, sizes, start.clone()))).collect();
+                let mut recs = vec![];
+                for h in hs {
+                    match h.await {
+                        Ok(r) => recs.push(r),
+                        Err(e) => return json!({"op":"panic","in":"async store task","msg":panic_msg(e)}),
+                    }
+                }
+                // quiescence: everything the tasks were told, and what the store says now
+                let _ = store.flush().await;
+                let mut puts: Vec<(u32, Value)> = vec![];
+                let mut removed: Vec<u32> = vec![];
+                let mut reads: Vec<Value> = vec![];
+                for r in recs {
+                    calls += r.calls;
+                    puts.extend(r.puts);
+                    removed.extend(r.removed);
+                    reads.extend(r.reads);
+                }
+                let mut fin = vec![];
+                let mut cont = vec![];
+                for (id, _) in &puts {
+                    fin.push(get_json(&store.get(*id).await));
+                    cont.push(store.contains(*id).await);
+                }
+                let gone: std::collections::HashSet<u32> = removed.iter().copied().collect();
+                let live_ids: Vec<u32> = puts.iter().map(|p| p.0).filter(|id| !gone.contains(id)).collect();
+                let gb = match store.get_batch(live_ids.clone()).await {
+                    Ok(v) if v.len() == live_ids.len() => json!({"ok":true,"items":v.iter().zip(live_ids.iter()).map(|(b, id)| json!({"id":id,"d":digest(b)})).collect::<Vec<_>>()}),
+                    Ok(v) => json!({"ok":false,"items":[],"what":"get_batch returned another number of records","got":v.len()}),
+                    Err(_) => json!({"ok":false,"items":[]}),
+                };
+                let pj: Vec<Value> = puts.iter().map(|(id, d)| json!({"id":id,"d":d})).collect();
+                records += pj.len();
+                json!({"op":"as_quiesce","puts":pj,"removed":removed,"final":fin,"contains":cont,"reads":reads,"gb":gb,"len":store.len().await})
+            });
+            big_batches += ev["puts"].as_array().map_or(0, |p| p.len() / 200);
+            tr.ev(ev);
+            if on_disk {
+                let _ = std::fs::remove_dir_all(&dir);
+            }
+        }
+    }
+    tr.close();
+    write_summary(&a.out, &json!({"mode":"storeq","events":tr.total_events,"runs":tr.runs,"calls":calls,"records_put":records,"approx_big_batches":big_batches}));
+}
+
 // ---------------------------------------------------------------- yielding fibers
 
 #[derive(Clone, Copy)]
@@ -1415,6 +1611,7 @@ fn main() {
         "stream" => mode_stream(&a),
         "collect" => mode_collect(&a),
         "store" => mode_store(&a),
+        "storeq" => mode_storeq(&a),
         "yield" => mode_yield(&a),
         "aio" => mode_aio(&a),
         m => {
